@@ -153,6 +153,8 @@ report_cvs_log(struct report_context *r)
 		{ ROBSD,	"cvs-xenocara-ci.log" },
 		{ ROBSD_PORTS,	"cvs-ports-up.log" },
 		{ ROBSD_PORTS,	"cvs-ports-ci.log" },
+		{ ROBSD_REGRESS,	"cvs-src-up.log" },
+		{ ROBSD_REGRESS,	"cvs-src-ci.log" },
 	};
 	size_t npaths = sizeof(paths) / sizeof(paths[0]);
 	size_t i;
